@@ -156,6 +156,18 @@ let handle (line : string) : string =
     let f = M.gen_redkg log in
     Printf.sprintf "genredkg id=%s thr=%s parts=%s kept=%s" (pn f.M.gf_id) (pz f.M.gf_threshold)
       (String.concat "," (List.map pn f.M.gf_parts)) (String.concat "," (List.map (fun m -> pn m.M.gm_tag) f.M.gf_msgs))
+  | "adapt" :: id :: n :: rest ->
+    (* adapt <id> <n> {event round sender recipient}* : a reinit file's messages before the 0.1.4 adaptation *)
+    let open Fsm_io in
+    let c = { a = Array.of_list rest; i = 0 } in
+    let msgs = List.init (int_of_string n) (fun i ->
+        let ev = st_in (next c) in let r = next_n c in let s = next_n c in let rc = next_n c in
+        { M.am_event = ev; am_round = r; am_sender = s; am_recipient = rc; am_tag = n_of_int (i + 1);
+          am_offset = M.Z0; am_synthetic = false }) in
+    let out = M.adapt (n_of_dec id) msgs in
+    "adapt " ^ String.concat "," (List.map (fun m ->
+        (if m.M.am_synthetic then "S" ^ pn m.M.am_sender ^ ">" ^ pn m.M.am_recipient ^ "/" ^ pn m.M.am_round
+         else "M" ^ pn m.M.am_tag) ^ "@" ^ pz m.M.am_offset) out)
   | "c04lock" :: _ -> "c04lock waits=" ^ (if M.tick_waits_during_command then "true" else "false")
   | "c04gap" :: _ -> "c04gap saved-without-password=" ^ (if M.gap_saves_without_password then "true" else "false")
   | "c04rounds" :: t1 :: m1 :: t2 :: m2 :: _ ->
